@@ -70,37 +70,33 @@ theorem mapValues_refines (f : K → V → V) (t : Tree K V) :
   | leaf k v => rfl
   | node h k v l r ihl ihr => simp [mapValues, abs, ihl, ihr]
 
-/-- right child of the root is not a `Node` -/
-def RightSmall : Tree K V → Bool
-  | .node _ _ _ _ (.node _ _ _ _ _) => false
-  | _ => true
+theorem abs_ne_nil_of_not_isEmpty (t : Tree K V) (h : isEmpty t = false) : abs t ≠ [] := by
+  cases t <;> simp_all [isEmpty, abs]
 
-theorem max_partial (t : Tree K V) (h : RightSmall t = true) : max t = (abs t).getLast? := by
-  cases t with
+theorem max_refines (t : Tree K V) : max t = (abs t).getLast? := by
+  induction t with
   | empty => rfl
   | leaf k v => rfl
-  | node h' k v l r =>
-    cases r with
-    | empty => simp [max, isEmpty, abs]
-    | leaf k' v' => simp [max, isEmpty, abs, min]
-    | node _ _ _ _ _ => simp [RightSmall] at h
+  | node h k v l r ihl ihr =>
+    simp only [max, abs]
+    cases hr : isEmpty r
+    · have := abs_ne_nil_of_not_isEmpty r hr
+      cases h' : abs r with
+      | nil => exact absurd h' this
+      | cons a as =>
+        simp only [Bool.false_eq_true, if_false, ihr, h']
+        rw [List.getLast?_append_of_ne_nil _ (by simp), List.getLast?_cons_cons]
+    · have : abs r = [] := (isEmpty_iff r).1 hr
+      simp [this]
 
-/-- no `Empty` anywhere below the root -/
-def NoEmpty : Tree K V → Prop
-  | .empty => False
-  | .leaf _ _ => True
-  | .node _ _ _ l r => NoEmpty l ∧ NoEmpty r
-
-theorem exists_partial (f : K → V → Bool) (t : Tree K V) (h : NoEmpty t) :
+theorem exists_refines (f : K → V → Bool) (t : Tree K V) :
     «exists» f t = (abs t).any (fun kv => f kv.1 kv.2) := by
   induction t with
-  | empty => simp [NoEmpty] at h
+  | empty => simp [«exists», abs]
   | leaf k v => simp [«exists», abs]
   | node h' k v l r ihl ihr =>
-    simp [NoEmpty] at h
-    simp [«exists», abs, ihl h.1, ihr h.2, List.any_append]
+    simp [«exists», abs, ihl, ihr, List.any_append]
     cases f k v <;> simp [Bool.or_comm]
-
 
 @[simp] theorem height_empty : height (Tree.empty : Tree K V) = 0 := rfl
 @[simp] theorem height_leaf (k : K) (v : V) : height (Tree.leaf k v) = 1 := rfl
